@@ -14,6 +14,7 @@ import (
 	_ "verif/harness/checks/c10"
 	_ "verif/harness/checks/c11"
 	_ "verif/harness/checks/c12"
+	_ "verif/harness/checks/c13"
 	_ "verif/harness/checks/c14"
 	_ "verif/harness/checks/c15"
 	_ "verif/harness/checks/c16"
